@@ -134,12 +134,12 @@ Lemma resolve_wf p ns t : wf_ann t = true -> leaf_ok p t = true -> locals_in ns 
   exists rt, resolve p ns t = Ok rt /\ wf_ty rt = true /\ forall d, about rt d = about t d.
 Proof.
   unfold locals_in. intros W L Hl.
-  destruct t as [b|c'|e|a|k a|a|n'|a|a|k v|o| |n']; try discriminate W;
+  destruct t as [b|c'|e|a|k a|a|n'|a|a|k v|o| |n'|pp u1 u2]; try discriminate W;
     try (eexists; split; [reflexivity|]; split; [exact W | reflexivity]);
     try (unfold leaf_ok in L; cbn in L; cbn in Hl; cbn; try rewrite Hl; unfold resolve_name;
          destruct (find_decl p n') as [d'|]; try discriminate L; destruct (d_kind d');
          eexists; split; try reflexivity; split; reflexivity);
-    destruct a as [b|c'|e|a|k' a|a|n'|a|a|k' v|o| |n']; try discriminate W;
+    destruct a as [b|c'|e|a|k' a|a|n'|a|a|k' v|o| |n'|pp u1 u2]; try discriminate W;
     try (eexists; split; [reflexivity|]; split; [exact W | reflexivity]);
     unfold leaf_ok in L; cbn in L; cbn in Hl; cbn; try rewrite Hl; unfold resolve_name;
     destruct (find_decl p n') as [d'|]; try discriminate L; destruct (d_kind d');
